@@ -1065,6 +1065,8 @@ def _probe():
 
 def _probe_one(w, s, x, twin, op, sub, check):
         partners = [i for i in op.operands(sub) if i and i != s["a"]]
+        if w.too_large([s["a"]] + partners):
+            return None
         pb = {i: V.snap(w.get(i)) for i in partners}
         xb = V.snap(x)
         g1 = _guard(lambda: op.run(w, sub))
